@@ -243,7 +243,35 @@ def normalise(t: Term) -> Term:
     t = map_children(t, normalise)
     k = t[0]
     if k == "comp" and t[1] in ("listcomp", "genexp"):
-        return ("comp", "seq", t[2], t[3])
+        t = ("comp", "seq", t[2], t[3])
+    if k == "comp" and t[1] == "seq":
+        # fusion: [f(m) for m in [g(x) for x in S if c] if d]  ->  [f(g(x)) for x in S if c if d[m := g(x)]]
+        gens = list(t[3])
+        elt = t[2]
+        changed = False
+        i = 0
+        while i < len(gens):
+            names, it, conds = gens[i]
+            if len(names) == 1 and it[0] == "comp" and it[1] == "seq":
+                inner_names = {n for g in it[3] for n in g[0]}
+                outer_names = {n for g in gens for n in g[0]}
+                if not (inner_names & outer_names):
+                    b = ("bound", names[0])
+                    sub = {b: it[2]}
+                    new_conds = tuple(substitute(c, sub) for c in conds)
+                    inner = list(it[3])
+                    if new_conds:
+                        ln, li, lc = inner[-1]
+                        inner[-1] = (ln, li, tuple(lc) + new_conds)
+                    rest = [(n2, substitute(i2, sub), tuple(substitute(c2, sub) for c2 in c3)) for n2, i2, c3 in gens[i + 1:]]
+                    gens = gens[:i] + inner + rest
+                    elt = substitute(elt, sub)
+                    changed = True
+                    continue
+            i += 1
+        if changed:
+            return ("comp", "seq", elt, tuple(gens))
+        return t
     if k == "call" and t[1][0] == "name" and not t[3]:
         fn = t[1][1]
         if fn in ("list", "tuple", "iter") and len(t[2]) == 1 and t[2][0][0] == "comp" and t[2][0][1] == "seq":
@@ -260,6 +288,12 @@ def normalise(t: Term) -> Term:
             if inner[0] == "comp" and inner[1] == "seq":
                 return ("comp", "seq", inner[2], tuple(outer[3]) + tuple(inner[3]))
             return ("comp", "seq", ("bound", "_flat"), tuple(outer[3]) + ((("_flat",), inner, ()),))
+    # functools.reduce(operator.iconcat / add / concat, [E for ..], []) with a fresh empty start is the same
+    # concatenation as sum([...], []) (without the start value iconcat would extend the first list in place)
+    if k == "call" and key(t[1]) in ("functools.reduce", "reduce") and not t[3] and len(t[2]) == 3 and key(t[2][0]) in ("operator.iconcat", "operator.add", "operator.concat", "iconcat", "add", "concat"):
+        start = t[2][2]
+        if start == ("list", ()) or (start[0] == "sym" and start[1].startswith("new") and start[1].endswith(":list")):
+            return normalise(("call", ("name", "sum"), (t[2][1], ("list", ())), (), None))
     return t
 
 
